@@ -162,4 +162,36 @@ theorem tlvLoopSrc_eq (tlvs : List TlvField) : ∀ (fuel : Nat) (last : Option N
                     · rw [if_pos h2, if_pos h2]
                     · rw [if_neg h2, if_neg h2]
 
+/-! ## the writer -/
+
+theorem writeItems_tlv (t : Nat) (v : Bytes) :
+    writeItems [.typ, .len, .val] t v = BigSize.encode t ++ (BigSize.encode v.length ++ v) := by
+  simp [writeItems, List.flatMap_cons]
+
+/-- the translated `encode_tlv_stream!` IS the model's `encodeTlvs` -/
+theorem encodeTlvStreamSrc_eq : ∀ (tlvs : List TlvField) (vals : List (Option Val)),
+    encodeTlvStreamSrc tlvs vals = encodeTlvs tlvs vals
+  | [], _ => by simp [encodeTlvStreamSrc, encodeTlvs]
+  | _ :: _, [] => by simp [encodeTlvStreamSrc, encodeTlvs]
+  | f :: fs, some v :: vs => by
+    have ih := encodeTlvStreamSrc_eq fs vs
+    have hi : (if f.kind == .required then reqItems else optSomeItems) = [.typ, .len, .val] := by
+      unfold reqItems optSomeItems; split <;> rfl
+    simp only [encodeTlvStreamSrc, encodeTlvs, hi, writeItems_tlv, ih, List.append_assoc]
+  | f :: fs, none :: vs => by
+    have ih := encodeTlvStreamSrc_eq fs vs
+    simp [encodeTlvStreamSrc, encodeTlvs, optNoneItems, writeItems, ih]
+
+theorem encOrderCheck_eq : ∀ (last : Option Nat) (tys : List Nat),
+    encOrderCheck last tys = strictInc (match last with | some t => t :: tys | none => tys)
+  | _, [] => by cases ‹Option Nat› <;> simp [encOrderCheck, strictInc]
+  | none, ty :: rest => by
+    have ih := encOrderCheck_eq (some ty) rest
+    simpa [encOrderCheck] using ih
+  | some t, ty :: rest => by
+    have ih := encOrderCheck_eq (some ty) rest
+    simp only [encOrderCheck, strictInc, encOrderOk]
+    simp only [] at ih
+    rw [ih]
+
 end Ldk.TlvSrc
